@@ -320,6 +320,115 @@ class MustUpdate(MustAnalysis):
             self.missing = [s for s in states_out if "upd" not in s.tokens]
 
 
+VALUE_REDUCTIONS = {"sum", "count_nonzero", "any", "all", "mean", "max", "min", "prod", "nansum", "cumsum"}
+
+
+def _one_instance(e):
+    """`x[i:i + 1]`, `x[[i]]`, `x[i].reshape(1, -1)`, `x[i][None]`, `[x[i]]`"""
+    if isinstance(e, ast.Subscript):
+        sl = e.slice
+        if isinstance(sl, ast.Slice) and sl.lower is not None and sl.upper is not None and sl.step is None:
+            lo = ast.unparse(sl.lower).replace(" ", "")
+            up = ast.unparse(sl.upper).replace(" ", "")
+            return up in (f"{lo}+1", f"1+{lo}", f"({lo})+1")
+        if isinstance(sl, ast.List) and len(sl.elts) == 1:
+            return True
+        if isinstance(sl, ast.Constant) and sl.value is None and isinstance(e.value, ast.Subscript):
+            return True
+    if isinstance(e, ast.Call) and isinstance(e.func, ast.Attribute) and e.func.attr == "reshape" \
+            and isinstance(e.func.value, ast.Subscript) and e.args and ast.unparse(e.args[0]) == "1":
+        return True
+    if isinstance(e, ast.List) and len(e.elts) == 1:
+        return True
+    return False
+
+
+def check_commit_counts(p, report, ents):
+    from .c01 import element_count_operand, callname
+    seen = set()
+    todo = []
+    for ci, f in ents:
+        u = p.find_method(ci, "update")
+        if u is not None:
+            todo.append((ci, u))
+    while todo:
+        ci, u = todo.pop()
+        if id(u.node) in seen:
+            continue
+        seen.add(id(u.node))
+        ps = [a for a in u.params() if a != "self"]
+        cand = ps[0] if ps else None
+        qidx = ps[1] if len(ps) > 1 else None
+        tree = FuncTree(u.node)
+        # (a) nested commits: an update called inside a per-instance loop gets one instance
+        for c in ast.walk(u.node):
+            if isinstance(c, ast.Call) and isinstance(c.func, ast.Attribute) and c.func.attr == "update":
+                is_super = isinstance(c.func.value, ast.Call) and isinstance(c.func.value.func, ast.Name) \
+                    and c.func.value.func.id == "super"
+                callee = None
+                if is_super and u.cls is not None:
+                    try:
+                        callee = p.find_method(ci, "update", after=u.cls)
+                    except ValueError:
+                        callee = None
+                    if callee is not None:
+                        todo.append((ci, callee))
+                st = tree.stmt_of(c)
+                loops = tree.enclosing_loops(st)
+                if not loops:
+                    report.add("R4.6", u.qual, f"`{norm_stmt(st, 60)}` applied once per call", f"{u.file}:{c.lineno}", True,
+                               detail="outside any loop", nontrivial=False)
+                    continue
+                if not (is_super or "budget_manager" in ast.unparse(c.func.value)):
+                    continue
+                a0 = c.args[0] if c.args else next((k.value for k in c.keywords if k.arg == "candidates"), None)
+                ok = a0 is not None and _one_instance(a0)
+                report.add("R4.6", u.qual, f"`{norm_stmt(st, 60)}` inside a per-instance loop gets one instance",
+                           f"{u.file}:{c.lineno}", ok,
+                           detail="one-instance slice" if ok else
+                           f"the callee advances its estimate once for every instance it is handed; called in a loop with "
+                           f"`{ast.unparse(a0) if a0 is not None else '?'}` the estimate decays once per REMAINING instance: "
+                           f"spending is under-estimated")
+        # (b) increments are counts
+        for n in ast.walk(u.node):
+            tgt = None
+            if isinstance(n, ast.AugAssign):
+                tgt = n.target
+            elif isinstance(n, ast.Assign) and len(n.targets) == 1:
+                tgt = n.targets[0]
+            if tgt is None or not (isinstance(tgt, ast.Attribute) and isinstance(tgt.value, ast.Name) and tgt.value.id == "self"):
+                continue
+            bad = None
+            for sub in ast.walk(n.value):
+                E = element_count_operand(sub)
+                if E is not None and isinstance(E, ast.Name) and E.id == cand:
+                    bad = (f"`{ast.unparse(sub)}` is the number of ELEMENTS of the 2-d `{cand}` (instances x features), not the "
+                           f"number of observed instances: the observation counter runs ahead by the number of features")
+                if isinstance(sub, ast.Call) and qidx is not None:
+                    cn = (callname(sub) or "").split(".")[-1]
+                    recv_is_q = isinstance(sub.func, ast.Attribute) and isinstance(sub.func.value, ast.Name) \
+                        and sub.func.value.id == qidx
+                    arg_is_q = bool(sub.args) and isinstance(sub.args[0], ast.Name) and sub.args[0].id == qidx
+                    if cn in VALUE_REDUCTIONS and (recv_is_q or arg_is_q):
+                        bad = (f"`{ast.unparse(sub)}` reduces over the VALUES of the index array `{qidx}`: a label granted to "
+                               f"instance 0 of a chunk is not counted (or indices are summed): granted labels are under-counted")
+            if cand in names_in(n.value) or (qidx and qidx in names_in(n.value)) or bad:
+                report.add("R4.6", u.qual, f"increment `{norm_stmt(n, 60)}` is a count", f"{u.file}:{n.lineno}", bad is None,
+                           detail=bad or "row count / number of indices")
+        # increments through the indicator `queried` (zeros(len(candidates)); queried[queried_indices] = 1)
+        for n in ast.walk(u.node):
+            if isinstance(n, ast.Assign) and len(n.targets) == 1 and isinstance(n.targets[0], ast.Name) \
+                    and isinstance(n.value, ast.Call) and (callname(n.value) or "").split(".")[-1] in ("zeros", "zeros_like", "full"):
+                bad = None
+                for sub in ast.walk(n.value):
+                    E = element_count_operand(sub)
+                    if E is not None and isinstance(E, ast.Name) and E.id == cand:
+                        bad = f"`{ast.unparse(sub)}` is an element count of `{cand}`"
+                if cand in names_in(n.value):
+                    report.add("R4.6", u.qual, f"indicator `{norm_stmt(n, 60)}` has one entry per instance", f"{u.file}:{n.lineno}",
+                               bad is None, detail=bad or "length is the number of candidate rows")
+
+
 def run(p, report, tier):
     report.rule("R4.1", "inside the per-instance loop every grant (append of the counter / store of a possibly-true "
                 "value into queried[i]) can only happen when the budget guard of that iteration is true (boolean "
@@ -473,6 +582,12 @@ def run(p, report, tier):
             report.add("R4.4", g.qual, "no per-instance loop variable is read after its loop", f"{g.file}:{g.node.lineno}",
                        not stale, detail="; ".join(f"`{v}` (loop at line {ll}) read at line {ln}" for v, ll, ln in stale) or
                        "accounting statements stay inside the per-instance loop", nontrivial=False)
+    report.rule("R4.6", "the commit advances the spent-estimate once per observed instance and by the number of granted "
+                "labels: an `update` called from inside a per-instance loop receives a one-instance slice; the "
+                "increments count candidate ROWS (never the elements of the 2-d candidates array) and count the "
+                "queried indices by their number (len / indicator sum), never by a reduction over the index values",
+                floor=8)
+    check_commit_counts(p, report, ents)
     report.assumptions += [
         "the numerical bounds of the property follow from R4.1-R4.4 by arithmetic that is not in the code; only the four structural premises are decided",
         "strict vs. non-strict comparison is not judged",
